@@ -646,6 +646,9 @@ func (r *sysRun) doQuery(o op, specOnly bool) {
 		if !eq && qerr == "" {
 			res.Mismatch(vh.Mismatch{Section: r.section, Function: "ranged read (write loop → cindex → chkSelector → JIterator → fiterator)", Input: in, Impl: short(gotS), Model: short(f["got"])})
 		}
+		if f["abs"] == "0" {
+			res.Mismatch(vh.Mismatch{Section: r.section, Function: "abstract scan of the partition theorem (PartScan: windows folded over chunks + range re-check) vs the executable pipeline model", Input: in, Impl: short(gotS), Model: "PartScan.scanAll differs from RangedIter.scan: " + short(f["got"])})
+		}
 		if f["spec"] != specS {
 			res.Mismatch(vh.Mismatch{Section: r.section, Function: "SPEC oracle: filter of the unbounded read vs filter of what was written", Input: in, Impl: short(specS), Model: short(f["spec"])})
 		}
